@@ -4,6 +4,7 @@ package c20
 
 import (
 	"fmt"
+	"os"
 	"strings"
 	"sync"
 	"sync/atomic"
@@ -18,10 +19,11 @@ import (
 )
 
 type checker struct {
-	r      *ev.Run
-	canons []*canon
-	cache  sync.Map // content digest of a view -> struct{}: functional checks already evaluated for this content
-	noMemo bool
+	r       *ev.Run
+	canons  []*canon
+	tallest *canon
+	cache   sync.Map // content digest of a view -> struct{}: functional checks already evaluated for this content
+	noMemo  bool
 
 	evalReal, evalMemo, sysFallthrough, stateReads, lookups, statesOpened, statesRefused atomic.Int64
 }
@@ -170,20 +172,46 @@ func diffEq(a, b *core.StateDiff) bool {
 
 // functional evaluates everything that is a pure function of (view content, canonical chain): content of each
 // entry vs the wire alphabet, tx / receipt lookups, state reads under every canonical variant and backend.
-// It is evaluated once per distinct view CONTENT (deep hash) unless noMemo; purity is checked, not assumed:
-// the view's deep hash is recomputed after the reads.
+// Memoisation (unless noMemo), always by DEEP CONTENT, never by pointer:
+//   - lookups / entry content / out-of-range reads: once per distinct content of the whole view;
+//   - state at block b (and before each transaction index of b): once per distinct content of the view's blocks
+//     oldest..b — ChainReader reads nothing above b for these (the real call is still made on the full view).
+//
+// Purity is checked, not assumed: the view's deep hash is recomputed after the reads.
 func (c *checker) functional(v *preconfirmed.ChainReader, entries []*pending.PreConfirmed, p pass, ctx func() any) {
 	if len(entries) == 0 {
 		return
 	}
 	before := viewDigest(v, p)
-	if !c.noMemo {
-		if _, seen := c.cache.LoadOrStore(before, struct{}{}); seen {
-			c.evalMemo.Add(1)
-			return
+	whole := c.noMemo
+	if !whole {
+		_, seen := c.cache.LoadOrStore(before, struct{}{})
+		whole = !seen
+	}
+	need := make([]bool, len(entries))
+	anyNeed := whole
+	{
+		parts := [][]byte{[]byte("prefix")}
+		for j, e := range entries {
+			parts = append(parts, p.dump(e))
+			if c.noMemo {
+				need[j] = true
+			} else if _, seen := c.cache.LoadOrStore(combine(parts...), struct{}{}); !seen {
+				need[j] = true
+			}
+			anyNeed = anyNeed || need[j]
 		}
 	}
-	c.evalReal.Add(1)
+	if !anyNeed {
+		c.evalMemo.Add(1)
+		return
+	}
+	if whole {
+		c.evalReal.Add(1)
+	}
+	if os.Getenv("C20_NOFUNC") != "" {
+		return
+	}
 	viol := func(key string, d map[string]any) {
 		d["view"] = describe(v)
 		d["case"] = ctx()
@@ -199,6 +227,7 @@ func (c *checker) functional(v *preconfirmed.ChainReader, entries []*pending.Pre
 		rc  *core.TransactionReceipt
 	}
 	items := map[felt.Felt]item{}
+	present := map[felt.Felt]bool{} // addresses D(s,i) / classes S(s,i) of rounds present in the view
 	for j, e := range entries {
 		sq := core.EmptyStateDiff()
 		if len(e.Block.Receipts) != len(e.Block.Transactions) || len(e.TransactionStateDiffs) != len(e.Block.Transactions) ||
@@ -227,31 +256,36 @@ func (c *checker) functional(v *preconfirmed.ChainReader, entries []*pending.Pre
 		if e.StateUpdate == nil || !diffEq(e.StateUpdate.StateDiff, &sq) {
 			viol("entry-state-diff-is-not-squash-of-its-txs", map[string]any{"block": e.Block.Number})
 		}
+		if i := idIndex(e.BlockIdentifier); i >= 0 {
+			present[addrD(e.Block.Number, i)] = true
+		}
 	}
+	lo, hi := entries[0].Block.Number, entries[len(entries)-1].Block.Number
 
 	// --- lookups: exactly the view's items
-	lo, hi := entries[0].Block.Number, entries[len(entries)-1].Block.Number
-	for s := lo - 1; s <= hi+1; s++ {
-		for i := 0; i < 3; i++ {
-			for k := 0; k < 6; k++ {
-				h := txHash(s, i, k)
-				it, want := items[h]
-				tx, err := v.TransactionByHash(&h)
-				rc, num, err2 := v.ReceiptByHash(&h)
-				c.lookups.Add(2)
-				if want {
-					if err != nil || tx != it.tx {
-						viol("tx-lookup-misses-item-of-view", map[string]any{"hash": h.String(), "err": fmt.Sprint(err)})
-					}
-					if err2 != nil || rc != it.rc || num != it.num {
-						viol("receipt-lookup-misses-item-of-view", map[string]any{"hash": h.String(), "err": fmt.Sprint(err2), "num": num, "want": it.num})
-					}
-				} else {
-					if err == nil {
-						viol("tx-lookup-finds-item-outside-view", map[string]any{"hash": h.String()})
-					}
-					if err2 == nil {
-						viol("receipt-lookup-finds-item-outside-view", map[string]any{"hash": h.String(), "num": num})
+	if whole {
+		for s := lo - 1; s <= hi+1; s++ {
+			for i := 0; i < 3; i++ {
+				for k := 0; k < 6; k++ {
+					h := txHash(s, i, k)
+					it, want := items[h]
+					tx, err := v.TransactionByHash(&h)
+					rc, num, err2 := v.ReceiptByHash(&h)
+					c.lookups.Add(2)
+					if want {
+						if err != nil || tx != it.tx {
+							viol("tx-lookup-misses-item-of-view", map[string]any{"hash": h.String(), "err": fmt.Sprint(err)})
+						}
+						if err2 != nil || rc != it.rc || num != it.num {
+							viol("receipt-lookup-misses-item-of-view", map[string]any{"hash": h.String(), "err": fmt.Sprint(err2), "num": num, "want": it.num})
+						}
+					} else {
+						if err == nil {
+							viol("tx-lookup-finds-item-outside-view", map[string]any{"hash": h.String()})
+						}
+						if err2 == nil {
+							viol("receipt-lookup-finds-item-outside-view", map[string]any{"hash": h.String(), "num": num})
+						}
 					}
 				}
 			}
@@ -265,20 +299,51 @@ func (c *checker) functional(v *preconfirmed.ChainReader, entries []*pending.Pre
 	_, s1, _, _ := chain.Sierra(1)
 	probeClasses := []felt.Felt{c0, s1, chain.FV(0xBADC1A55)}
 	for s := lo; s <= hi; s++ {
+		absent := false
 		for i := 0; i < 3; i++ {
+			// the rounds present in the view + one round per slot that is not
+			if !present[addrD(s, i)] {
+				if absent {
+					continue
+				}
+				absent = true
+			}
 			probeAddrs = append(probeAddrs, addrD(s, i))
 			_, h, _ := classOf(s, i)
 			probeClasses = append(probeClasses, h)
 		}
 	}
-	for _, cn := range c.canons {
+	for _, cn := range c.selectCanons(base) {
+		// reference states, shared by both backends
+		models := make([]*chain.State, len(entries))
+		if cn.height() >= base {
+			m := cn.entries[base].State.Clone()
+			for j := range entries {
+				if err := m.Apply(entries[j].Block.Number, pcVersion, expBlock[j], nil); err != nil {
+					c.r.Infra("harness alphabet not protocol-valid: %v (%s on %s)", err, describe(v), cn.name)
+				}
+				if need[j] {
+					models[j] = m.Clone()
+				}
+			}
+		}
 		for nb := 0; nb < 2; nb++ {
+			if nb == 0 && cn.height() >= base && strings.ContainsAny(cn.name, "ra") {
+				// COST: every storage read that reaches the legacy backend over memory.Database copies the whole store
+				// (stateHistory -> batch.NewIterator -> Database.Copy), so the legacy backend is read under the straight
+				// chains only (head == base, tallest above, base missing); chains reached through a revert / fork are read
+				// on the new backend (the legacy base under those histories is C03/C04's subject).
+				continue
+			}
 			bcr := cn.bc[nb]
 			tag := "legacy"
 			if nb == 1 {
 				tag = "newstate"
 			}
 			for j, e := range entries {
+				if !need[j] {
+					continue
+				}
 				b := e.Block.Number
 				// visible class definitions: NewClasses of blocks <= b
 				vis := map[felt.Felt]core.ClassDefinition{}
@@ -287,24 +352,16 @@ func (c *checker) functional(v *preconfirmed.ChainReader, entries []*pending.Pre
 						vis[h] = cd
 					}
 				}
-				var model *chain.State
-				if cn.height() >= base {
-					model = cn.entries[base].State.Clone()
-					for jj := 0; jj <= j; jj++ {
-						if err := model.Apply(entries[jj].Block.Number, pcVersion, expBlock[jj], nil); err != nil {
-							c.r.Infra("harness alphabet not protocol-valid: %v (%s on %s)", err, describe(v), cn.name)
-						}
-					}
-				}
 				sr, closer, err := v.PreConfirmedStateAt(b, bcr)
-				c.probe(viol, "state-at", tag, cn, b, -1, sr, err, model, vis, probeAddrs, probeClasses)
+				c.probe(viol, "state-at", tag, cn, b, -1, sr, err, models[j], vis, probeAddrs, probeClasses)
 				if closer != nil {
 					_ = closer()
 				}
-				// state immediately before transaction idx of block b: the layering of the per-transaction diffs does not
-				// depend on which base is below, so it is read under two canonical variants only (the longest straight
-				// chain and the fork re-stored after a revert), both backends.
-				if !cn.forIndex {
+				// state immediately before transaction idx of block b: the layering of the per-transaction diffs is
+				// ChainReader code that does not depend on which base is below, so it is read under two canonical
+				// variants only (the longest straight chain on the legacy backend, the fork re-stored after a revert on
+				// the new one).
+				if cn.forIndex != nb+1 {
 					continue
 				}
 				ntx := len(e.Block.Transactions)
@@ -337,10 +394,12 @@ func (c *checker) functional(v *preconfirmed.ChainReader, entries []*pending.Pre
 				}
 			}
 			// outside the view: not found
-			for _, b := range []uint64{lo - 1, hi + 1} {
-				if _, cl, err := v.PreConfirmedStateAt(b, bcr); err == nil {
-					_ = cl()
-					viol("state-at-block-outside-view-succeeds", map[string]any{"block": b})
+			if whole {
+				for _, b := range []uint64{lo - 1, hi + 1} {
+					if _, cl, err := v.PreConfirmedStateAt(b, bcr); err == nil {
+						_ = cl()
+						viol("state-at-block-outside-view-succeeds", map[string]any{"block": b})
+					}
 				}
 			}
 		}
@@ -398,7 +457,11 @@ func (c *checker) probe(viol func(string, map[string]any), what, tag string, cn 
 				viol(key("nonce"), det(map[string]any{"addr": a.String(), "got": nc.String(), "want": "absent"}))
 			}
 		}
-		for _, sl := range []felt.Felt{chain.Slot0, chain.Slot1, chain.FV(7)} {
+		slots := []felt.Felt{chain.Slot0, chain.Slot1}
+		if a.Equal(&chain.Sys2) || a.Equal(&chain.Sys1) {
+			slots = []felt.Felt{chain.FV(7), chain.Slot0}
+		}
+		for _, sl := range slots {
 			sl := sl
 			got, err := sr.ContractStorage(&a, &sl)
 			c.stateReads.Add(1)
@@ -454,6 +517,47 @@ func (c *checker) probe(viol func(string, map[string]any), what, tag string, cn 
 			viol(key("compiled-class-hash"), det(map[string]any{"class": h.String(), "want": "not found"}))
 		}
 	}
+}
+
+// selectCanons picks, for a view whose canonical base is block `base`, the canonical variants that differ in how
+// that base is reached: every variant whose HEAD is the base (straight, through a revert, fork), the tallest
+// straight chain and the tallest fork above it (historical reads), one chain reached through a revert above it,
+// and the tallest chain that does not contain the base at all (read must be refused). Reading under the remaining
+// variants would repeat one of these situations with identical canonical content below the view.
+func (c *checker) selectCanons(base uint64) []*canon {
+	var out []*canon
+	var below, straightAbove, forkAbove, revertAbove *canon
+	for _, cn := range c.canons {
+		h := cn.height()
+		fork := strings.HasSuffix(cn.name, "a")
+		viaRevert := strings.Contains(cn.name, "r") && !fork
+		switch {
+		case h == base:
+			out = append(out, cn)
+		case h < base:
+			if below == nil || h > below.height() {
+				below = cn
+			}
+		case fork:
+			if forkAbove == nil || h > forkAbove.height() {
+				forkAbove = cn
+			}
+		case viaRevert:
+			if revertAbove == nil || h > revertAbove.height() {
+				revertAbove = cn
+			}
+		default:
+			if straightAbove == nil || h > straightAbove.height() {
+				straightAbove = cn
+			}
+		}
+	}
+	for _, cn := range []*canon{below, straightAbove, forkAbove, revertAbove} {
+		if cn != nil {
+			out = append(out, cn)
+		}
+	}
+	return out
 }
 
 // baseClass: is the class declared in the canonical base (i.e. in the model but not by the view's own diffs)?
